@@ -9,7 +9,9 @@ RULE = ("rule-satisfying documents rendered from the generated schema family (mu
         "must equal the expected elaboration); documents obtained by one rule-violating edit per listed rule at a random "
         "applicable position, and pairs of edits (must be rejected with SchemaError when the schema is loaded); a derived "
         "type taking the name of an earlier plain / abstract / derived type or of its base; the character-data elements "
-        "in every element, with every element among their text or after them (schema documents and imported components). "
+        "in every element, with every element among their text or after them (schema documents and imported components); "
+        "violating documents and accepted controls for the document element, prefix, second <example>, <import> attributes, "
+        "<multikey default>, top-level items of components, <schema extends> of conflicting bases. "
         "non-trivial = a document with >= 1 section type; distinct by document text")
 
 
@@ -295,6 +297,76 @@ def nesting_docs(rng, host_xml, cases):
     return out
 
 
+# ------------------------------------------------------------------ rule sites of the loader outside the edit family above
+def _root_attr(xml, frag):
+    i = xml.index(">")
+    return xml[:i] + " " + frag + xml[i:]
+
+
+def rule_site_docs(rng, sd):
+    """(rule, document, expected verdict or None): one or more violating documents and an accepted control for each of: the
+    document element; the prefix attribute; a second <example>; the attributes of <import>; <multikey default=...>.
+    An expectation is stated where the property text or the DTD names the rule (document element, example?, the attribute
+    list of multikey); the prefix and <import> rules are rules of the code: no expectation here, the documents are judged
+    by the comparison with the Lean model of the loader"""
+    x = F.render_xml(sd)
+    out = []
+    # the document element
+    for root in ("component", "config", "schemas", "Schema", "sectiontype", "description"):
+        body = x[x.index("<schema") + len("<schema"):x.rindex("</schema>")]
+        out.append(("document-element", "<%s%s</%s>\n" % (root, body, root), "reject"))
+    out.append(("document-element-control", x, "ok"))
+    # prefix: a dotted name on the document element, a dotted name or a suffix below it
+    for bad in ("1bad", "a..b", "a.", ".", ".rel", "a b", "a-b.c", "pkg.1x"):
+        out.append(("prefix-not-dotted-name", _root_attr(x, "prefix='%s'" % bad), None))
+    for bad in ("1bad", "a..b", ".a.", ".", "..x", ".1x", "a b"):
+        out.append(("prefix-not-dotted-suffix", _inject_first(x, "  <sectiontype name='pfx9' prefix='%s'/>\n" % bad), None))
+        out.append(("prefix-not-dotted-suffix", _inject_first(_root_attr(x, "prefix='zcvdt'"), "  <sectiontype name='pfx9' prefix='%s'/>\n" % bad), None))
+    for good in ("zcvdt", "good.pkg9", "_x.y_1", ""):
+        out.append(("prefix-control", _root_attr(x, "prefix='%s'" % good), "ok"))
+    for good in (".sub9", ".a.b", "other.pkg9", ""):
+        out.append(("prefix-control", _inject_first(x, "  <sectiontype name='pfx9' prefix='%s'/>\n" % good), "ok"))
+        out.append(("prefix-control", _inject_first(_root_attr(x, "prefix='zcvdt'"), "  <sectiontype name='pfx9' prefix='%s'/>\n" % good), "ok"))
+    # example?: at most one per element
+    two = "<example>one</example><example>two</example>"
+    sep = "<example>one</example><description>d</description><example></example>"
+    one = "<description>d</description><example>one</example>"
+    for rule, ex, want in (("two-examples", two, "reject"), ("two-examples", sep, "reject"), ("two-examples-control", one, "ok")):
+        out.append((rule, _inject_last(x, "  %s\n" % ex), want))
+        out.append((rule, _inject_first(x, "  <sectiontype name='ex9'>%s<key name='exk9'/></sectiontype>\n" % ex), want))
+        out.append((rule, _inject_last(x, "  <key name='ex9'>%s</key>\n" % ex), want))
+        out.append((rule, _inject_last(x, "  <multikey name='ex9'>%s<default>v</default></multikey>\n" % ex), want))
+        out.append((rule, _inject_first(x, "  <sectiontype name='ext9'/>\n") .replace("</schema>", "  <section type='ext9' name='ex9'>%s</section>\n</schema>" % ex), want))
+        out.append((rule, _inject_first(x, "  <sectiontype name='ext9'/>\n") .replace(
+            "</schema>", "  <multisection type='ext9' name='*' attribute='ex9'>%s</multisection>\n</schema>" % ex), want))
+    # <import>: src or package, not both; file only with package and without a directory part
+    for rule, imp, want in (
+            ("import-neither", "<import/>", None), ("import-neither", "<import src='' package='  '/>", None),
+            ("import-neither", "<import file='component.xml'/>", None),
+            ("import-both", "<import src='lib9.xml' package='ZConfig.components.basic'/>", None),
+            ("import-both", "<import src=' lib9.xml ' package='ZConfig.components.basic' file='mapping.xml'/>", None),
+            ("import-file-with-src", "<import src='lib9.xml' file='mapping.xml'/>", None),
+            ("import-file-directory", "<import package='ZConfig.components.basic' file='sub/mapping.xml'/>", None),
+            ("import-file-directory", "<import package='ZConfig.components' file='basic/mapping.xml'/>", None),
+            ("import-file-directory", "<import package='ZConfig.components.basic' file='/mapping.xml'/>", None),
+            ("import-control", "<import package='ZConfig.components.basic' file='mapping.xml'/>", "ok"),
+            ("import-control", "<import package='ZConfig.components.basic'/>", "ok"),
+            ("import-control", "<import package=' ZConfig.components.basic ' file=' mapping.xml '/>", "ok")):
+        out.append((rule, _inject_first(x, "  %s\n" % imp), want))
+    # multikey: default values only as <default> elements
+    for mk in ("<multikey name='mkd9' default='x'/>", "<multikey name='mkd9' default=''/>",
+               "<multikey name='mkd9' default='x'><default>y</default></multikey>",
+               "<multikey name='mkd9' default='x' required='yes'/>"):
+        out.append(("multikey-default-attribute", _inject_last(x, "  %s\n" % mk), "reject"))
+        out.append(("multikey-default-attribute", _inject_first(x, "  <sectiontype name='mkt9'>%s</sectiontype>\n" % mk), "reject"))
+    if not any(c.kind == "key" and c.name == "+" for c in sd.children):
+        out.append(("multikey-default-attribute", _inject_last(x, "  <multikey name='+' attribute='mkd9' default='x'/>\n"), "reject"))
+    for mk in ("<multikey name='mkd9'><default>x</default></multikey>", "<key name='mkd9' default='x'/>", "<multikey name='mkd9'/>"):
+        out.append(("multikey-default-control", _inject_last(x, "  %s\n" % mk), "ok"))
+        out.append(("multikey-default-control", _inject_first(x, "  <sectiontype name='mkt9'>%s</sectiontype>\n" % mk), "ok"))
+    return out
+
+
 # ------------------------------------------------------------------ a derived type that takes an existing name
 def derived_duplicates(rng, sd, all_textual=False):
     """'unique type names' where the SECOND definition is a derived type (<sectiontype extends=...>): it names an earlier
@@ -342,13 +414,13 @@ def component_docs(rng, pk):
     import os
     out = []
 
-    def comp(body):
+    def comp(body, raw=False):
         name = pk.fresh_name("zcvc10p")
         d = os.path.join(pk.root, name)
         os.makedirs(d)
         with open(os.path.join(d, "__init__.py"), "w") as f:
             f.write("# generated\n")
-        text = "<component>\n%s</component>\n" % body
+        text = body if raw else "<component>\n%s</component>\n" % body
         with open(os.path.join(d, "component.xml"), "w") as f:
             f.write(text)
         pk.names.append(name)
@@ -360,6 +432,29 @@ def component_docs(rng, pk):
         out.append(("component-cdata-nesting-%s:%s" % (case[3], case[1]),
                     "<schema>\n%s  <import package='%s'/>\n</schema>\n" % (NEST_TYPE, name), want,
                     {"case": "%s/%s/%s" % case[:3], "component.xml": text}))
+    # rule sites of ComponentParser: its document element; items at its top level (they belong into section types); its
+    # prefix; the <import> attribute rules inside a component
+    items = ("<key name='ck9'/>", "<multikey name='cmk9'/>", "<section type='nty9' name='cs9'/>",
+             "<multisection type='nty9' name='*' attribute='cms9'/>")
+    sites = [("component-document-element", "<%s>\n  <sectiontype name='cde9'/>\n</%s>\n" % (r, r), "reject") for r in ("schema", "Component", "components", "sectiontype")]
+    sites.append(("component-document-element-control", "<component>\n  <sectiontype name='cde9'/>\n</component>\n", "ok"))
+    for it in items:
+        sites.append(("component-toplevel-item", "<component>\n  %s\n</component>\n" % it, "reject"))
+        sites.append(("component-toplevel-item", "<component>\n  <sectiontype name='cti9'/>\n  %s\n</component>\n" % it, "reject"))
+    sites.append(("component-toplevel-item-control", "<component>\n  <sectiontype name='cti9'>\n    %s\n  </sectiontype>\n</component>\n" % "\n    ".join(items), "ok"))
+    for bad in ("1bad", "a..b", ".rel", "a b"):
+        sites.append(("component-prefix", "<component prefix='%s'>\n  <sectiontype name='cpx9'/>\n</component>\n" % bad, None))
+        sites.append(("component-prefix", "<component>\n  <sectiontype name='cpx9' prefix='%s'/>\n</component>\n" % bad.replace(".rel", "..rel"), None))
+    for good in ("zcvdt", "good.pkg9", ""):
+        sites.append(("component-prefix-control", "<component prefix='%s'>\n  <sectiontype name='cpx9' prefix='.sub9'/>\n</component>\n" % good, "ok"))
+    for rule, imp, want in (("component-import-neither", "<import/>", None), ("component-import-both", "<import src='x.xml' package='ZConfig.components.basic'/>", None),
+                            ("component-import-file-with-src", "<import src='x.xml' file='mapping.xml'/>", None),
+                            ("component-import-file-directory", "<import package='ZConfig.components.basic' file='sub/mapping.xml'/>", None),
+                            ("component-import-control", "<import package='ZConfig.components.basic' file='mapping.xml'/>", "ok")):
+        sites.append((rule, "<component>\n  %s\n</component>\n" % imp, want))
+    for rule, text, want in sites:
+        name, text = comp(text, raw=True)
+        out.append((rule, "<schema>\n%s  <import package='%s'/>\n</schema>\n" % (NEST_TYPE, name), want, {"component.xml": text}))
     base = "  <sectiontype name='cbase9'><key name='k9'/></sectiontype>\n"
     v = rng.choice(["cvict9", "CVict9", "CVICT9"])
     for kind, first, second, want in (
@@ -462,6 +557,9 @@ def _import_src_rules(ctx):
             ("reject", "<schema><import src='lib3.xml'/><import src='lib5.xml'/></schema>"),
             ("reject", "<schema><import src='lib3.xml'/><sectiontype name='mine5'/><sectiontype name='THIRD' extends='mine5'/></schema>"),
             ("reject", "<schema><import src='lib6.xml'/></schema>"),
+            # a rule of the code the model does not cover (<import src> is outside the model): explored, not judged
+            (None, "<schema><import src='lib3.xml#part'/></schema>"),
+            (None, "<schema><import src='lib3.xml#'/></schema>"),
             ("ok", "<schema><import src='lib7.xml'/><section type='t7' name='s'/></schema>"),
         ]
         for want, xml in docs:
@@ -476,11 +574,107 @@ def _import_src_rules(ctx):
             ctx.evaluations += 1
             ctx.nontriv(("import-src", xml))
             ctx.count("import-src:%s:%s" % (want, got))
-            if got != want:
+            if want is not None and got != want:
                 ctx.violate("rules across <import src> (unique type names, nesting): %s is %s (expected %s)" % (xml, got, want),
                             dict({"schema_xml": xml}, **{f: open(os.path.join(root, f)).read()
                                                          for f in sorted(os.listdir(root)) if f.startswith("lib") and f in xml}),
                             signature="C10:import-src-type-names:%s->%s" % (want, got))
+    finally:
+        shutil.rmtree(root, ignore_errors=True)
+
+
+def _extends_rules(ctx):
+    """<schema extends='a b ...'>: key type and datatype are inherited from the bases when the extending schema states none and
+    the bases agree (the rule of the code: conflicting bases are refused); descriptions of bases do not count as the
+    extending schema's own.  Real loader vs the Lean model (bases handed over as documents); the verdict expected is given
+    for the record and judged where the property lists the rule (at most one <description>)"""
+    import os
+    import shutil
+    import tempfile
+    root = tempfile.mkdtemp(prefix="zcv-c10x-", dir="/dev/shm" if os.path.isdir("/dev/shm") else None)
+    try:
+        files = {
+            "ki.xml": "<schema keytype='identifier'><key name='Ki'/></schema>",
+            "ki2.xml": "<schema keytype='identifier'><key name='Ki2'/></schema>",
+            "kb.xml": "<schema keytype='basic-key'><key name='kb'/></schema>",
+            "kn.xml": "<schema><key name='kn'/></schema>",                          # states none: basic-key
+            "kc.xml": "<schema extends='ki.xml'><key name='Kc'/></schema>",         # inherits identifier
+            "dw.xml": "<schema datatype='zcvdt.wrap'><key name='dw'/></schema>",
+            "dw2.xml": "<schema prefix='zcvdt' datatype='.wrap'><key name='dw2'/></schema>",
+            "dn.xml": "<schema datatype='null'><key name='dn'/></schema>",
+            "dc.xml": "<schema extends='dw.xml'><key name='dc'/></schema>",
+            "da.xml": "<schema><description>from a</description><key name='da'/></schema>",
+            "db.xml": "<schema><description>from b</description><example>e</example><key name='db'/></schema>",
+            "dd.xml": "<schema><description>one</description><description>two</description></schema>",
+            "de.xml": "<schema extends='da.xml'><description>own of e</description><key name='de'/></schema>",
+        }
+        for n, t in files.items():
+            with open(os.path.join(root, n), "w") as f:
+                f.write(t)
+        own = "<key name='Own9'/>"
+        docs = [
+            # conflicting key types
+            ("extends-conflicting-keytypes", "reject", None, "<schema extends='ki.xml kb.xml'>%s</schema>"),
+            ("extends-conflicting-keytypes", "reject", None, "<schema extends='kb.xml ki.xml'>%s</schema>"),
+            ("extends-conflicting-keytypes", "reject", None, "<schema extends='ki.xml kn.xml'>%s</schema>"),
+            ("extends-conflicting-keytypes", "reject", None, "<schema extends='ki.xml ki2.xml kb.xml'>%s</schema>"),
+            ("extends-conflicting-keytypes", "reject", None, "<schema extends='kc.xml kn.xml'>%s</schema>"),
+            ("extends-conflicting-keytypes", "reject", None, "<schema extends='ki.xml kb.xml' datatype='null'>%s</schema>"),
+            ("extends-keytypes-control", "ok", None, "<schema extends='ki.xml kb.xml' keytype='identifier'>%s</schema>"),
+            ("extends-keytypes-control", "ok", None, "<schema extends='ki.xml kb.xml' keytype='basic-key'>%s</schema>"),
+            ("extends-keytypes-control", "ok", None, "<schema extends='ki.xml ki2.xml'>%s</schema>"),
+            ("extends-keytypes-control", "ok", None, "<schema extends='kb.xml kn.xml'>%s</schema>"),
+            ("extends-keytypes-control", "ok", None, "<schema extends='kc.xml ki2.xml'>%s</schema>"),
+            ("extends-keytypes-control", "ok", None, "<schema extends='ki.xml'>%s</schema>"),
+            # conflicting datatypes
+            ("extends-conflicting-datatypes", "reject", None, "<schema extends='dw.xml dn.xml'>%s</schema>"),
+            ("extends-conflicting-datatypes", "reject", None, "<schema extends='kn.xml dw.xml'>%s</schema>"),
+            ("extends-conflicting-datatypes", "reject", None, "<schema extends='dw.xml dw2.xml dn.xml'>%s</schema>"),
+            ("extends-conflicting-datatypes", "reject", None, "<schema extends='dc.xml dn.xml'>%s</schema>"),
+            ("extends-conflicting-datatypes", "reject", None, "<schema extends='dw.xml dn.xml' keytype='basic-key'>%s</schema>"),
+            ("extends-conflicting-datatypes", "reject", None, "<schema extends='ki.xml dw.xml' keytype='identifier'>%s</schema>"),
+            ("extends-datatypes-control", "ok", None, "<schema extends='dw.xml dn.xml' datatype='null'>%s</schema>"),
+            ("extends-datatypes-control", "ok", None, "<schema extends='dw.xml dn.xml' datatype='zcvdt.wrap'>%s</schema>"),
+            ("extends-datatypes-control", "ok", None, "<schema extends='dw.xml dw2.xml'>%s</schema>"),
+            ("extends-datatypes-control", "ok", None, "<schema extends='dc.xml dw2.xml'>%s</schema>"),
+            ("extends-datatypes-control", "ok", None, "<schema extends='dn.xml kn.xml'>%s</schema>"),
+            ("extends-datatypes-control", "ok", None, "<schema extends='ki.xml dw.xml' keytype='identifier' datatype='null'>%s</schema>"),
+            # a base is a whole document: no fragment identifier
+            ("extends-fragment", "reject", None, "<schema extends='ki.xml#part'>%s</schema>"),
+            ("extends-fragment", "reject", None, "<schema extends='ki.xml ki2.xml#x'>%s</schema>"),
+            ("extends-fragment-control", "ok", None, "<schema extends='ki.xml#'>%s</schema>"),
+            # descriptions of bases
+            ("extends-descriptions-control", "ok", "ok", "<schema extends='da.xml'>%s</schema>"),
+            ("extends-descriptions-control", "ok", "ok", "<schema extends='da.xml db.xml'>%s</schema>"),
+            ("extends-descriptions-control", "ok", "ok", "<schema extends='da.xml db.xml'><description>own</description>%s</schema>"),
+            ("extends-descriptions-control", "ok", "ok", "<schema extends='da.xml'><description>own</description><example>own</example>%s</schema>"),
+            # an <example> of a base stays the example of the one schema object (unlike descriptions): a second one is refused,
+            # as it is in the written-out document; a rule of the code, left to the model
+            ("extends-example-of-base", "reject", None, "<schema extends='da.xml db.xml'><description>own</description><example>own</example>%s</schema>"),
+            ("extends-descriptions-control", "ok", "ok", "<schema extends='de.xml db.xml'><description>own</description>%s</schema>"),
+            ("extends-descriptions-control", "ok", "ok", "<schema extends='de.xml'>%s</schema>"),
+            ("extends-two-descriptions", "reject", "reject", "<schema extends='da.xml db.xml'><description>own</description><description>again</description>%s</schema>"),
+            ("extends-two-descriptions", "reject", "reject", "<schema extends='dd.xml'>%s</schema>"),
+            ("extends-two-descriptions", "reject", "reject", "<schema extends='da.xml dd.xml'>%s</schema>"),
+            ("extends-two-examples", "reject", "reject", "<schema extends='db.xml'><example>a</example><example>b</example>%s</schema>"),
+        ]
+        url = "file://" + os.path.join(root, "top.xml")
+        texts = [d[3] % own for d in docs]
+        res = elabrun.compare(ctx, "c10-extends", texts, base_dir=root, url=url)
+        for (rule, expected, want, _), x, rm in zip(docs, texts, res):
+            ctx.evaluations += 1
+            ctx.nontriv(("extends", x))
+            got = "?" if rm is None else "ok" if rm[0][0] == "ok" else "reject" if rm[0][1] in ("schema", "schema-resource") else "exc"
+            ctx.count("rule:%s:%s" % (rule, got))
+            bases = {n: files[n] for n in files if n in x}
+            for n in list(bases):
+                bases.update({m: files[m] for m in files if m in files[n]})
+            if want is not None and got != want:
+                ctx.violate("rule '%s': %s is %s (expected %s)" % (rule, x, got, want), dict({"schema_xml": x, "rule": rule}, **bases),
+                            signature="C10:%s:%s->%s" % (rule, want, got))
+            elif got != expected:
+                # a rule of the code, not of the property text: recorded; the model comparison above decides
+                ctx.count("extends-unexpected:%s:%s" % (rule, got))
     finally:
         shutil.rmtree(root, ignore_errors=True)
 
@@ -500,6 +694,9 @@ def run(ctx):
     for rule, x in derived_duplicates(rng, minimal, True):
         all_docs.append(x)
         judge(ctx, rule, x, "reject")
+    for rule, x, want in rule_site_docs(rng, minimal):
+        all_docs.append(x)
+        judge(ctx, rule, x, want)
     # ... then inside the documents of the family
     for i in range(n):
         sd = cfggen.gen_schema(rng, handlers=rng.random() < 0.3)
@@ -536,7 +733,13 @@ def run(ctx):
         for rule, x, want, case in nesting_docs(rng, xml, rng.sample(cases, len(cases) if (ctx.thorough() and i % 20 == 0) else 8)):
             all_docs.append(x)
             judge(ctx, rule, x, want, {"case": case})
+        # the rule sites outside the edit family (document element, prefix, example?, <import> attributes, multikey default)
+        sites = rule_site_docs(rng, sd)
+        for rule, x, want in (sites if (ctx.thorough() and i % 10 == 0) else rng.sample(sites, 10)):
+            all_docs.append(x)
+            judge(ctx, rule, x, want)
     _import_src_rules(ctx)
+    _extends_rules(ctx)
     pk = pkggen.PkgRoot()
     try:
         for rule, x, want, extra in component_docs(rng, pk):
